@@ -697,7 +697,7 @@ func main() {
 		return
 	}
 	rng := lib.NewRNG(f.Seed)
-	progs := generate(rng, f.Scale(1500, 60000))
+	progs := generate(rng, f.Scale(1500, 20000))
 	for i := range progs {
 		progs[i].I = i
 	}
